@@ -499,7 +499,7 @@ func genHelpers(t *rapid.T) []Helper {
 			return rapid.SampledFrom(hostileArgs).Draw(t, label)
 		}
 		// free composition of line-break fragments: every order of CR and LF around an injected field line / body
-		frag := rapid.SampledFrom([]string{"\r", "\n", "\r\n", "\n\r", "X-Injected: 1", "INJECTED-BODY", "/home", "a", " ", "\t", "v", ";", "="})
+		frag := rapid.SampledFrom([]string{"\r", "\n", "\r\n", "\n\r", "X-Injected: 1", "INJECTED-BODY", "/home", "a", " ", "\t", "v", ";", "=", "%0d", "%0a", "%0D%0A", "%250a", "%250d", "%25", "%"})
 		n := rapid.IntRange(1, 6).Draw(t, label+"n")
 		var sb strings.Builder
 		for i := 0; i < n; i++ {
@@ -651,10 +651,28 @@ func classify(c Case, fail string) string {
 		}
 		c2.Helpers = append(c2.Helpers, h2)
 	}
-	if check(c2).Fail == "" {
-		return "C07-b"
+	if check(c2).Fail != "" {
+		return ""
 	}
-	return ""
+	// ... and it must not be owed to a line break in the flash data: Cookie() replaces CR and LF, so what is left of this
+	// finding are the other control bytes. A failure that disappears when CR and LF in the flash arguments are spelled
+	// with letters is a header split, not this finding.
+	c3 := c
+	c3.Helpers = nil
+	for _, h3 := range c.Helpers {
+		if h3.Name == "flash" {
+			args := make([]string, len(h3.Args))
+			for i, a := range h3.Args {
+				args[i] = strings.NewReplacer("\r", "r", "\n", "n").Replace(a)
+			}
+			h3 = Helper{"flash", args}
+		}
+		c3.Helpers = append(c3.Helpers, h3)
+	}
+	if check(c3).Fail == "" {
+		return ""
+	}
+	return "C07-b"
 }
 
 // ---- raw connection bytes -------------------------------------------------------------------------------
